@@ -23,7 +23,7 @@ func (c *Ctx) intBits(t types.Type) (bits int64, signed bool) {
 // errReturnBlocks: blocks of fn that return a non-nil error (last result).
 func errReturnBlocks(fn *ssa.Function) map[*ssa.BasicBlock]bool {
 	out := map[*ssa.BasicBlock]bool{}
-	for _, b := range fn.Blocks {
+	for _, b := range blocksOf(fn) {
 		ret, ok := b.Instrs[len(b.Instrs)-1].(*ssa.Return)
 		if !ok || len(ret.Results) == 0 {
 			continue
@@ -112,7 +112,7 @@ func ruleNarrowing(c *Ctx, r *Report) {
 			}
 			// (b) a dominating test on a conversion of the same operand to the same type with an error edge
 			guarded := false
-			for _, d := range fn.Blocks {
+			for _, d := range blocksOf(fn) {
 				cond := ifCond(d)
 				if cond == nil || !d.Dominates(cv.Block()) || d == cv.Block() {
 					continue
